@@ -11,6 +11,10 @@ transactions on the multisig, its cw4-group and the cw20 deposit token, with re-
 dispatched by proposals, hooks and failing dispatches, at arbitrary blocks, after an accepted instantiation
 (`Cw3Flex.Reachable`).  Differences from cw3-fixed: `Execute` also needs `Config::authorize` (executor none / member /
 only), and it returns the deposit refund in front of the proposal's messages; `Close` may return the refund.
+
+The converse over histories (`dispatched_only_by_execute_run`): the instrumented runtime `dispatchT` / `txT` / `runT`
+(= `dispatch` / `tx` / `run` plus the list of leaf messages performed for the multisig; `dispatchT_ok_iff`, `runT_world`)
+and the multiset equation trace = ⨄ of what the handler calls recorded in the ghost log returned.
 -/
 namespace CwPlus.Props.C05Flex
 open CwPlus CwPlus.Cw3 CwPlus.Cw3Core CwPlus.Cw3Flex CwPlus.Props
@@ -567,6 +571,710 @@ theorem query_always_answers {ext : Ext} {fuel : Nat} {w : World} (hr : Reachabl
   obtain ⟨st, hst⟩ := reachable_statusInv hr id p hp hfit blk
   simp [Cw3Flex.queryProposal, Cw3Core.queryProposal, load, hp, viewOf, hst, bind, Except.bind, pure, Except.pure]
 
+/-! ## the converse: everything the runtime ever dispatches for the multisig traces back to a handler call
+
+The ghost log of the flex world records handler calls, not individual bank sends or token calls.  To state the converse of
+"Execute returns the proposal's messages" over whole histories, `dispatchT` is `Cw3Flex.dispatch` instrumented with the
+list of *leaf* messages it performed for the multisig (bank sends, cw20 `Transfer`/`TransferFrom`, group updates — not the
+nested calls back into the multisig, whose own leaves are collected in place, and not the group's hook messages);
+`dispatchT_ok_iff` proves it computes exactly the world `dispatch` computes, `runT_world` the same for histories. -/
+
+/-- A returned message that is performed as such (not a call back into the multisig, not a hook sent by the group). -/
+def isLeafOut : Out → Bool
+  | .msg m => (selfCall m).isNone
+  | .bank .. => true
+  | .cw20Transfer .. => true
+  | .cw20TransferFrom .. => true
+  | .groupHook _ => false
+
+/-- `Cw3Flex.dispatch`, also returning the leaf messages performed, in the order performed. -/
+def dispatchT (ext : Ext) : Nat → World → Block → List Out → Res (World × List Out)
+  | _, w, _, [] => .ok (w, [])
+  | 0, _, _, _ :: _ => .error "fuel"
+  | fuel + 1, w, blk, o :: rest => do
+    let (w1, t1) ← (match o with
+      | .msg m =>
+        match selfCall m with
+        | some em => do
+          let (s', out) ← execute w.flex w.group w.self blk w.self [] em
+          dispatchT ext fuel { w with flex := s', log := w.log ++ [eventOf w.flex w.self em] } blk out
+        | none =>
+          match m with
+          | .bank to amt denom => do
+            let b ← Cw3Fixed.bankSend w.bank w.self to amt denom
+            pure ({ w with bank := b }, [o])
+          | .other tag =>
+            match ext tag with
+            | some (add, remove) => do
+              let (g', outs) ← Cw4Group.execute w.group blk.height w.self
+                (.updateMembers (remove.map fun a => ⟨true, a⟩) (add.map fun p => (⟨true, p.1⟩, p.2)))
+              let (w2, t2) ← dispatchT ext fuel { w with group := g', log := w.log ++ [.groupWrite blk.height] } blk
+                (outs.map fun o => Out.groupHook o.hook)
+              pure (w2, o :: t2)
+            | none => .error "no_contract"
+          | _ => .error "no_contract"
+      | .bank to amt denom => do
+        let b ← Cw3Fixed.bankSend w.bank w.self to amt denom
+        pure ({ w with bank := b }, [o])
+      | .cw20Transfer token to amt => do
+        let w' ← tokenCall w blk token (.transfer ⟨true, to⟩ amt)
+        pure (w', [o])
+      | .cw20TransferFrom token owner to amt => do
+        let w' ← tokenCall w blk token (.transferFrom ⟨true, owner⟩ ⟨true, to⟩ amt)
+        pure (w', [o])
+      | .groupHook hook =>
+        if hook = w.self then do
+          let (s', out) ← execute w.flex w.group w.self blk w.groupAddr [] .memberChangedHook
+          dispatchT ext fuel { w with flex := s', log := w.log ++ [.hook] } blk out
+        else .error "no_contract" : Res (World × List Out))
+    let (w2, t2) ← dispatchT ext fuel w1 blk rest
+    pure (w2, t1 ++ t2)
+
+/-- **`dispatchT` is `dispatch`**: it succeeds exactly when `dispatch` does, with the same resulting world. -/
+theorem dispatchT_ok_iff (ext : Ext) (blk : Block) :
+    ∀ fuel w outs w', (∃ t, dispatchT ext fuel w blk outs = .ok (w', t)) ↔ dispatch ext fuel w blk outs = .ok w' := by
+  intro fuel
+  induction fuel with
+  | zero =>
+    intro w outs w'
+    cases outs with
+    | nil => simp [dispatchT, dispatch]
+    | cons o rest => simp [dispatchT, dispatch]
+  | succ fuel ih =>
+    intro w outs w'
+    cases outs with
+    | nil => simp [dispatchT, dispatch]
+    | cons o rest =>
+      simp only [dispatchT, dispatch, Res.bind_ok, Prod.exists]
+      -- the first message
+      have first : ∀ w1, (∃ t1,
+          (match o with
+            | .msg m =>
+              match selfCall m with
+              | some em => do
+                let (s', out) ← execute w.flex w.group w.self blk w.self [] em
+                dispatchT ext fuel { w with flex := s', log := w.log ++ [eventOf w.flex w.self em] } blk out
+              | none =>
+                match m with
+                | .bank to amt denom => do
+                  let b ← Cw3Fixed.bankSend w.bank w.self to amt denom
+                  pure ({ w with bank := b }, [o])
+                | .other tag =>
+                  match ext tag with
+                  | some (add, remove) => do
+                    let (g', outs) ← Cw4Group.execute w.group blk.height w.self
+                      (.updateMembers (remove.map fun a => ⟨true, a⟩) (add.map fun p => (⟨true, p.1⟩, p.2)))
+                    let (w2, t2) ← dispatchT ext fuel { w with group := g', log := w.log ++ [.groupWrite blk.height] } blk
+                      (outs.map fun o => Out.groupHook o.hook)
+                    pure (w2, o :: t2)
+                  | none => .error "no_contract"
+                | _ => .error "no_contract"
+            | .bank to amt denom => do
+              let b ← Cw3Fixed.bankSend w.bank w.self to amt denom
+              pure ({ w with bank := b }, [o])
+            | .cw20Transfer token to amt => do
+              let w' ← tokenCall w blk token (.transfer ⟨true, to⟩ amt)
+              pure (w', [o])
+            | .cw20TransferFrom token owner to amt => do
+              let w' ← tokenCall w blk token (.transferFrom ⟨true, owner⟩ ⟨true, to⟩ amt)
+              pure (w', [o])
+            | .groupHook hook =>
+              if hook = w.self then do
+                let (s', out) ← execute w.flex w.group w.self blk w.groupAddr [] .memberChangedHook
+                dispatchT ext fuel { w with flex := s', log := w.log ++ [.hook] } blk out
+              else .error "no_contract" : Res (World × List Out)) = .ok (w1, t1)) ↔
+          (match o with
+            | .msg m =>
+              match selfCall m with
+              | some em => do
+                let (s', out) ← execute w.flex w.group w.self blk w.self [] em
+                dispatch ext fuel { w with flex := s', log := w.log ++ [eventOf w.flex w.self em] } blk out
+              | none =>
+                match m with
+                | .bank to amt denom => do
+                  let b ← Cw3Fixed.bankSend w.bank w.self to amt denom
+                  pure { w with bank := b }
+                | .other tag =>
+                  match ext tag with
+                  | some (add, remove) => do
+                    let (g', outs) ← Cw4Group.execute w.group blk.height w.self
+                      (.updateMembers (remove.map fun a => ⟨true, a⟩) (add.map fun p => (⟨true, p.1⟩, p.2)))
+                    dispatch ext fuel { w with group := g', log := w.log ++ [.groupWrite blk.height] } blk
+                      (outs.map fun o => Out.groupHook o.hook)
+                  | none => .error "no_contract"
+                | _ => .error "no_contract"
+            | .bank to amt denom => do
+              let b ← Cw3Fixed.bankSend w.bank w.self to amt denom
+              pure { w with bank := b }
+            | .cw20Transfer token to amt => tokenCall w blk token (.transfer ⟨true, to⟩ amt)
+            | .cw20TransferFrom token owner to amt => tokenCall w blk token (.transferFrom ⟨true, owner⟩ ⟨true, to⟩ amt)
+            | .groupHook hook =>
+              if hook = w.self then do
+                let (s', out) ← execute w.flex w.group w.self blk w.groupAddr [] .memberChangedHook
+                dispatch ext fuel { w with flex := s', log := w.log ++ [.hook] } blk out
+              else .error "no_contract" : Res World) = .ok w1 := by
+        intro w1
+        cases o with
+        | msg m =>
+          simp only
+          cases hs : selfCall m with
+          | some em =>
+            simp only [Res.bind_ok, Prod.exists]
+            constructor
+            · rintro ⟨t1, s', out, he, hd⟩
+              exact ⟨s', out, he, (ih _ out w1).mp ⟨t1, hd⟩⟩
+            · rintro ⟨s', out, he, hd⟩
+              obtain ⟨t1, hd'⟩ := (ih _ out w1).mpr hd
+              exact ⟨t1, s', out, he, hd'⟩
+          | none =>
+            cases m with
+            | bank to amt denom =>
+              simp
+              exact ⟨fun ⟨_, a, h1, h2, _⟩ => ⟨a, h1, h2⟩, fun ⟨a, h1, h2⟩ => ⟨_, a, h1, h2, rfl⟩⟩
+            | other tag =>
+              simp only
+              cases hx : ext tag with
+              | none => simp
+              | some ar =>
+                obtain ⟨add, remove⟩ := ar
+                simp only [Res.bind_ok, Prod.exists, Res.pure_ok, Prod.mk.injEq]
+                constructor
+                · rintro ⟨t1, g', outs, hg, w2, t2, hd, rfl, _⟩
+                  exact ⟨g', outs, hg, (ih _ _ w2).mp ⟨t2, hd⟩⟩
+                · rintro ⟨g', outs, hg, hd⟩
+                  obtain ⟨t2, hd'⟩ := (ih _ _ w1).mpr hd
+                  exact ⟨_, g', outs, hg, w1, t2, hd', rfl, rfl⟩
+            | selfExecute id => simp [selfCall] at hs
+            | selfClose id => simp [selfCall] at hs
+            | selfVote id v => simp [selfCall] at hs
+            | selfPropose l => simp [selfCall] at hs
+            | noContract tag => simp
+        | bank to amt denom =>
+          simp
+          exact ⟨fun ⟨_, a, h1, h2, _⟩ => ⟨a, h1, h2⟩, fun ⟨a, h1, h2⟩ => ⟨_, a, h1, h2, rfl⟩⟩
+        | cw20Transfer token to amt =>
+          simp
+          exact ⟨fun ⟨_, a, h1, h2, _⟩ => h2 ▸ h1, fun h => ⟨_, w1, h, rfl, rfl⟩⟩
+        | cw20TransferFrom token owner to amt =>
+          simp
+          exact ⟨fun ⟨_, a, h1, h2, _⟩ => h2 ▸ h1, fun h => ⟨_, w1, h, rfl, rfl⟩⟩
+        | groupHook hook =>
+          simp only
+          split
+          · simp only [Res.bind_ok, Prod.exists]
+            constructor
+            · rintro ⟨t1, s', out, he, hd⟩
+              exact ⟨s', out, he, (ih _ out w1).mp ⟨t1, hd⟩⟩
+            · rintro ⟨s', out, he, hd⟩
+              obtain ⟨t1, hd'⟩ := (ih _ out w1).mpr hd
+              exact ⟨t1, s', out, he, hd'⟩
+          · simp
+      constructor
+      · rintro ⟨t, w1, t1, h1, w2, t2, h2, hp⟩
+        simp at hp
+        obtain ⟨rfl, _⟩ := hp
+        exact ⟨w1, (first w1).mp ⟨t1, h1⟩, (ih w1 rest w2).mp ⟨t2, h2⟩⟩
+      · rintro ⟨w1, h1, h2⟩
+        obtain ⟨t1, h1'⟩ := (first w1).mpr h1
+        obtain ⟨t2, h2'⟩ := (ih w1 rest w').mpr h2
+        exact ⟨t1 ++ t2, w1, t1, h1', w', t2, h2', by simp⟩
+
+/-- `Cw3Flex.tx`, also returning the leaf messages performed for the multisig. -/
+def txT (ext : Ext) (fuel : Nat) (w : World) (blk : Block) : Action → Res (World × List Out)
+  | .flex snd funds m => do
+    let b ← moveFunds w.bank snd w.self funds
+    let (s', out) ← execute w.flex w.group w.self blk snd funds m
+    dispatchT ext fuel { w with bank := b, flex := s', log := w.log ++ [eventOf w.flex snd m] } blk out
+  | .group snd m => do
+    let (g', outs) ← Cw4Group.execute w.group blk.height snd m
+    dispatchT ext fuel { w with group := g', log := w.log ++ [.groupWrite blk.height] } blk
+      (outs.map fun o => Out.groupHook o.hook)
+  | .token snd m => do
+    let (t, out) ← Cw20.execute w.token blk snd m
+    check out.isEmpty "unsupported"
+    pure ({ w with token := t }, [])
+
+theorem txT_ok_iff (ext : Ext) (fuel : Nat) (w w' : World) (blk : Block) (act : Action) :
+    (∃ t, txT ext fuel w blk act = .ok (w', t)) ↔ tx ext fuel w blk act = .ok w' := by
+  cases act with
+  | flex snd funds m =>
+    simp only [txT, tx, Res.bind_ok, Prod.exists]
+    constructor
+    · rintro ⟨t, b, hb, s', out, he, hd⟩
+      exact ⟨b, hb, s', out, he, (dispatchT_ok_iff ext blk fuel _ out w').mp ⟨t, hd⟩⟩
+    · rintro ⟨b, hb, s', out, he, hd⟩
+      obtain ⟨t, hd'⟩ := (dispatchT_ok_iff ext blk fuel _ out w').mpr hd
+      exact ⟨t, b, hb, s', out, he, hd'⟩
+  | group snd m =>
+    simp only [txT, tx, Res.bind_ok, Prod.exists]
+    constructor
+    · rintro ⟨t, g', outs, hg, hd⟩
+      exact ⟨g', outs, hg, (dispatchT_ok_iff ext blk fuel _ _ w').mp ⟨t, hd⟩⟩
+    · rintro ⟨g', outs, hg, hd⟩
+      obtain ⟨t, hd'⟩ := (dispatchT_ok_iff ext blk fuel _ _ w').mpr hd
+      exact ⟨t, g', outs, hg, hd'⟩
+  | token snd m =>
+    simp [txT, tx]
+    exact ⟨fun ⟨_, a, b, h1, h2, h3, _⟩ => ⟨a, b, h1, h2, h3⟩, fun ⟨a, b, h1, h2, h3⟩ => ⟨_, a, b, h1, h2, h3, rfl⟩⟩
+
+/-- One step of a history, accumulating the leaf messages of the committed transactions. -/
+def stepT (ext : Ext) (fuel : Nat) (wt : World × List Out) (op : Op) : World × List Out :=
+  match txT ext fuel wt.1 op.blk op.act with
+  | .ok (w', t) => (w', wt.2 ++ t)
+  | .error _ => wt
+
+/-- A history, with the leaf messages ever performed for the multisig in committed transactions, in order. -/
+def runT (ext : Ext) (fuel : Nat) (wt : World × List Out) (ops : List Op) : World × List Out := ops.foldl (stepT ext fuel) wt
+
+theorem stepT_world (ext : Ext) (fuel : Nat) (wt : World × List Out) (op : Op) :
+    (stepT ext fuel wt op).1 = step ext fuel wt.1 op := by
+  unfold stepT step
+  cases h : txT ext fuel wt.1 op.blk op.act with
+  | ok r =>
+    obtain ⟨w', t⟩ := r
+    rw [(txT_ok_iff ext fuel wt.1 w' op.blk op.act).mp ⟨t, h⟩]
+  | error e =>
+    cases h' : tx ext fuel wt.1 op.blk op.act with
+    | error e' => rfl
+    | ok w' =>
+      obtain ⟨t, ht⟩ := (txT_ok_iff ext fuel wt.1 w' op.blk op.act).mpr h'
+      rw [h] at ht; cases ht
+
+/-- **`runT` is `run`**: the instrumented history computes exactly the world of the model's `run`. -/
+theorem runT_world (ext : Ext) (fuel : Nat) : ∀ (ops : List Op) (wt : World × List Out),
+    (runT ext fuel wt ops).1 = run ext fuel wt.1 ops
+  | [], _ => rfl
+  | op :: rest, wt => by
+    show (runT ext fuel (stepT ext fuel wt op) rest).1 = run ext fuel (step ext fuel wt.1 op) rest
+    rw [runT_world ext fuel rest, stepT_world]
+
+/-- The stored proposal with status and tally blanked: what never changes (`Later`). -/
+def fixedOf (c : Core) (id : Nat) : Option Proposal := (c.proposals.get? id).map Proposal.fixedPart
+
+/-- The leaf messages the handler call recorded by a ghost event returned: an `executed` proposal's deposit refund followed
+by its own non-self-call messages; a `closed` proposal's refund when `refund_failed_proposals` is set; the cw20
+`TransferFrom` taking the deposit of a `proposed` one.  Votes, hooks and group writes return nothing. -/
+def outsOfEvent (c : Core) (self : Addr) : Event → List Out
+  | .executed id =>
+    match fixedOf c id with
+    | some p => (match p.deposit with | some d => [refundMsg d p.proposer] | none => []) ++ (p.msgs.map Out.msg).filter isLeafOut
+    | none => []
+  | .closed id =>
+    match fixedOf c id with
+    | some p => (match p.deposit with | some d => if d.refundFailed then [refundMsg d p.proposer] else [] | none => [])
+    | none => []
+  | .proposed id snd =>
+    match fixedOf c id with
+    | some p => (match p.deposit with | some d => takeDeposit d snd self | none => [])
+    | none => []
+  | _ => []
+
+/-- ⨄ over the events of a log, in log order, of what the recorded handler call returned for dispatch (leaf level). -/
+def expectedOuts (c : Core) (self : Addr) (log : List Event) : List Out := log.flatMap (outsOfEvent c self)
+
+/-- The proposal id a ghost event refers to. -/
+def evId : Event → Option Nat
+  | .executed id => some id
+  | .closed id => some id
+  | .proposed id _ => some id
+  | _ => none
+
+/-- `Inv`, and every proposal an `executed` / `closed` / `proposed` event of the log refers to is stored. -/
+def LogOk (w : World) : Prop :=
+  Inv w.flex ∧ ∀ e ∈ w.log, ∀ id, evId e = some id → (w.flex.core.proposals.get? id).isSome = true
+
+theorem outsOfEvent_congr {c c' : Core} {self : Addr} {e : Event}
+    (h : ∀ id, evId e = some id → fixedOf c' id = fixedOf c id) : outsOfEvent c' self e = outsOfEvent c self e := by
+  cases e <;> simp only [outsOfEvent] <;> rw [h _ rfl]
+
+theorem expectedOuts_congr {c c' : Core} {self : Addr} : ∀ (l : List Event),
+    (∀ e ∈ l, ∀ id, evId e = some id → fixedOf c' id = fixedOf c id) → expectedOuts c' self l = expectedOuts c self l
+  | [], _ => rfl
+  | e :: r, h => by
+    have ih := expectedOuts_congr (self := self) r (fun e he => h e (List.mem_cons_of_mem _ he))
+    simp only [expectedOuts, List.flatMap_cons] at ih ⊢
+    rw [ih, outsOfEvent_congr (h e (List.mem_cons_self ..))]
+
+theorem fixedOf_later {c c' : Core} (hl : Later c c') {id : Nat} (h : (c.proposals.get? id).isSome = true) :
+    fixedOf c' id = fixedOf c id := by
+  cases hp : c.proposals.get? id with
+  | none => rw [hp] at h; cases h
+  | some p =>
+    obtain ⟨p', hp', hf, _⟩ := hl.props id p hp
+    simp [fixedOf, hp, hp', hf]
+
+theorem refund_isLeaf (d : Deposit) (a : Addr) : isLeafOut (refundMsg d a) = true := by
+  unfold refundMsg; split <;> rfl
+
+theorem filter_takeDeposit (d : Deposit) (a self : Addr) : (takeDeposit d a self).filter isLeafOut = takeDeposit d a self := by
+  unfold takeDeposit; split <;> simp [isLeafOut]
+
+/-- **One handler call**: it keeps `LogOk`, and the expected leaf messages grow by exactly the leaf messages among what
+the call returned. -/
+theorem expected_call {w : World} {blk : Block} {snd : Addr} {funds : List Coin} {em : ExecMsg} {s' : State}
+    {out : List Out} (hq : LogOk w) (he : execute w.flex w.group w.self blk snd funds em = .ok (s', out)) :
+    LogOk { w with flex := s', log := w.log ++ [eventOf w.flex snd em] } ∧
+    expectedOuts s'.core w.self (w.log ++ [eventOf w.flex snd em]) =
+      expectedOuts w.flex.core w.self w.log ++ out.filter isLeafOut := by
+  obtain ⟨hi, hids⟩ := hq
+  have hl := execute_later hi he
+  have hstored : ∀ id, (w.flex.core.proposals.get? id).isSome = true → (s'.core.proposals.get? id).isSome = true := by
+    intro id h
+    cases hp : w.flex.core.proposals.get? id with
+    | none => rw [hp] at h; cases h
+    | some p => obtain ⟨p', hp', _⟩ := hl.props id p hp; simp [hp']
+  obtain ⟨hcfg, hc⟩ := execute_cases he
+  have hold : expectedOuts s'.core w.self w.log = expectedOuts w.flex.core w.self w.log :=
+    expectedOuts_congr w.log (fun e hm id hid => fixedOf_later hl (hids e hm id hid))
+  have happ : expectedOuts s'.core w.self (w.log ++ [eventOf w.flex snd em]) =
+      expectedOuts w.flex.core w.self w.log ++ outsOfEvent s'.core w.self (eventOf w.flex snd em) := by
+    simp only [expectedOuts, List.flatMap_append, List.flatMap_cons, List.flatMap_nil, List.append_nil] at hold ⊢
+    rw [hold]
+  rw [happ]
+  rcases hc with ⟨t, d, msgs, latest, w0, total, id0, hm, _, _, _, hout, hp⟩ | ⟨id0, v, hm, hout, hv⟩ |
+    ⟨id0, p, msgs, hm, hpp, hex, hout⟩ | ⟨id0, p, hm, hpp, hcl, hout⟩ | ⟨hm, _, hs, hout⟩
+  · subst hm
+    obtain ⟨_, _, _, _, hid, _, hc'⟩ := propose_spec hp
+    obtain ⟨pn, hnew, hdepn, hpropn⟩ : ∃ pn, s'.core.proposals.get? (w.flex.core.count + 1) = some pn ∧
+        pn.deposit = w.flex.cfg.deposit ∧ pn.proposer = snd :=
+      ⟨_, by rw [hc', ← hid]; exact AMap.get?_set_eq _ _ _, rfl, rfl⟩
+    refine ⟨⟨execute_inv hi he, fun e hm id hid' => ?_⟩, ?_⟩
+    · rcases List.mem_append.mp hm with hm | hm
+      · exact hstored id (hids e hm id hid')
+      · simp at hm; subst hm
+        simp [eventOf, evId] at hid'; subst hid'
+        rw [hnew]; rfl
+    · congr 1
+      simp only [eventOf, outsOfEvent, fixedOf, hnew, Option.map_some, Proposal.fixedPart, hdepn]
+      subst hout
+      cases hd : w.flex.cfg.deposit with
+      | none => simp
+      | some dep => simp [filter_takeDeposit]
+  · subst hm; subst hout
+    refine ⟨⟨execute_inv hi he, fun e hm id hid' => ?_⟩, by simp [eventOf, outsOfEvent]⟩
+    rcases List.mem_append.mp hm with hm | hm
+    · exact hstored id (hids e hm id hid')
+    · simp at hm; subst hm; simp [eventOf, evId] at hid'
+  · subst hm
+    obtain ⟨p0, hp0, _, _, hmsgs, hc'⟩ := execute_spec hex
+    rw [hpp] at hp0; cases hp0
+    have hnew : s'.core.proposals.get? id0 = some { p with status := .executed } := by rw [hc']; exact AMap.get?_set_eq _ _ _
+    refine ⟨⟨execute_inv hi he, fun e hm id hid' => ?_⟩, ?_⟩
+    · rcases List.mem_append.mp hm with hm | hm
+      · exact hstored id (hids e hm id hid')
+      · simp at hm; subst hm
+        simp [eventOf, evId] at hid'; subst hid'
+        rw [hnew]; rfl
+    · congr 1
+      simp only [eventOf, outsOfEvent, fixedOf, hnew, Option.map_some, Proposal.fixedPart]
+      subst hout hmsgs
+      cases hd : p.deposit with
+      | none => simp
+      | some dep => simp [List.filter_cons, refund_isLeaf]
+  · subst hm
+    obtain ⟨p0, _, hp0, _, _, _, _, _, _, hc'⟩ := close_spec hcl
+    rw [hpp] at hp0; cases hp0
+    have hnew : s'.core.proposals.get? id0 = some { p with status := .rejected } := by rw [hc']; exact AMap.get?_set_eq _ _ _
+    refine ⟨⟨execute_inv hi he, fun e hm id hid' => ?_⟩, ?_⟩
+    · rcases List.mem_append.mp hm with hm | hm
+      · exact hstored id (hids e hm id hid')
+      · simp at hm; subst hm
+        simp [eventOf, evId] at hid'; subst hid'
+        rw [hnew]; rfl
+    · congr 1
+      simp only [eventOf, outsOfEvent, fixedOf, hnew, Option.map_some, Proposal.fixedPart]
+      subst hout
+      cases hd : p.deposit with
+      | none => simp
+      | some dep =>
+        simp only
+        split <;> simp [refund_isLeaf]
+  · subst hm; subst hout; subst hs
+    refine ⟨⟨hi, fun e hm id hid' => ?_⟩, by simp [eventOf, outsOfEvent]⟩
+    rcases List.mem_append.mp hm with hm | hm
+    · exact hids e hm id hid'
+    · simp at hm; subst hm; simp [eventOf, evId] at hid'
+
+/-- `expectedOuts` of a world. -/
+def expectedOf (w : World) : List Out := expectedOuts w.flex.core w.self w.log
+
+/-- **The dispatch induction for the trace.**  Over the instrumented dispatch of any list of returned messages, with all
+nested handler calls and group updates: `LogOk` and the multisig's address are kept, and for every message value `x`
+"performed here + expected before = leaf messages of the list + expected after". -/
+theorem conv_dispatchT (ext : Ext) (blk : Block) :
+    ∀ fuel w outs w' t, LogOk w → dispatchT ext fuel w blk outs = .ok (w', t) →
+      LogOk w' ∧ w'.self = w.self ∧
+      ∀ x, t.count x + (expectedOf w).count x = (outs.filter isLeafOut).count x + (expectedOf w').count x := by
+  intro fuel
+  induction fuel with
+  | zero =>
+    intro w outs w' t hq h
+    cases outs with
+    | nil => simp [dispatchT] at h; obtain ⟨rfl, rfl⟩ := h; exact ⟨hq, rfl, fun x => by simp⟩
+    | cons o rest => simp [dispatchT] at h
+  | succ fuel ih =>
+    intro w outs w' t hq h
+    cases outs with
+    | nil => simp [dispatchT] at h; obtain ⟨rfl, rfl⟩ := h; exact ⟨hq, rfl, fun x => by simp⟩
+    | cons o rest =>
+      simp only [dispatchT, Res.bind_ok, Prod.exists, Res.pure_ok, Prod.mk.injEq] at h
+      obtain ⟨w1, t1, h1, w2, t2, h2, rfl, rfl⟩ := h
+      suffices hstep : LogOk w1 ∧ w1.self = w.self ∧
+          ∀ x, t1.count x + (expectedOf w).count x = ([o].filter isLeafOut).count x + (expectedOf w1).count x by
+        obtain ⟨hq1, hs1, hc1⟩ := hstep
+        obtain ⟨hq2, hs2, hc2⟩ := ih w1 rest w2 t2 hq1 h2
+        refine ⟨hq2, hs2.trans hs1, fun x => ?_⟩
+        have a := hc1 x
+        have b := hc2 x
+        rw [List.count_append]
+        have : ((o :: rest).filter isLeafOut).count x = ([o].filter isLeafOut).count x + (rest.filter isLeafOut).count x := by
+          rw [← List.count_append, ← List.filter_append]; rfl
+        omega
+      -- a leaf: the world keeps flex, log and self; the trace is the message itself
+      have leafStep : ∀ (wl : World), wl.flex = w.flex → wl.log = w.log → wl.self = w.self → isLeafOut o = true → t1 = [o] →
+          w1 = wl → LogOk w1 ∧ w1.self = w.self ∧
+          ∀ x, t1.count x + (expectedOf w).count x = ([o].filter isLeafOut).count x + (expectedOf w1).count x := by
+        intro wl hf hl hs hleaf ht hw
+        subst hw ht
+        refine ⟨by unfold LogOk; rw [hf, hl]; exact hq, hs, fun x => ?_⟩
+        simp [expectedOf, hf, hl, hs, List.filter_cons, hleaf]
+      -- a nested handler call followed by the dispatch of what it returned
+      have nested : ∀ (snd : Addr) (em : ExecMsg) (s' : State) (out : List Out), isLeafOut o = false →
+          execute w.flex w.group w.self blk snd [] em = .ok (s', out) →
+          dispatchT ext fuel { w with flex := s', log := w.log ++ [eventOf w.flex snd em] } blk out = .ok (w1, t1) →
+          LogOk w1 ∧ w1.self = w.self ∧
+          ∀ x, t1.count x + (expectedOf w).count x = ([o].filter isLeafOut).count x + (expectedOf w1).count x := by
+        intro snd em s' out hleaf he hd
+        obtain ⟨hq2, hexp⟩ := expected_call hq he
+        obtain ⟨hq1, hs1, hc1⟩ := ih _ out w1 t1 hq2 hd
+        refine ⟨hq1, hs1, fun x => ?_⟩
+        have a := hc1 x
+        simp only [expectedOf] at a ⊢
+        rw [hexp, List.count_append] at a
+        simp [List.filter_cons, hleaf]
+        omega
+      cases o with
+      | msg m =>
+        simp only at h1
+        cases hsc : selfCall m with
+        | some em =>
+          rw [hsc] at h1
+          simp only [Res.bind_ok, Prod.exists] at h1
+          obtain ⟨s', out, he, hd⟩ := h1
+          exact nested w.self em s' out (by simp [isLeafOut, hsc]) he hd
+        | none =>
+          rw [hsc] at h1
+          cases m with
+          | bank to amt denom =>
+            simp at h1
+            obtain ⟨b, _, rfl, rfl⟩ := h1
+            exact leafStep { w with bank := b } rfl rfl rfl (by simp [isLeafOut, hsc]) rfl rfl
+          | other tag =>
+            simp only at h1
+            cases hx : ext tag with
+            | none => simp [hx] at h1
+            | some ar =>
+              obtain ⟨add, remove⟩ := ar
+              simp only [hx, Res.bind_ok, Prod.exists, Res.pure_ok, Prod.mk.injEq] at h1
+              obtain ⟨g', outs, _, w3, t3, hd, rfl, rfl⟩ := h1
+              have hq2 : LogOk { w with group := g', log := w.log ++ [.groupWrite blk.height] } := by
+                refine ⟨hq.1, fun e hm id hid => ?_⟩
+                rcases List.mem_append.mp hm with hm | hm
+                · exact hq.2 e hm id hid
+                · simp at hm; subst hm; simp [evId] at hid
+              obtain ⟨hq1, hs1, hc1⟩ := ih _ _ w3 t3 hq2 hd
+              refine ⟨hq1, hs1, fun x => ?_⟩
+              have a := hc1 x
+              have hnil : ((outs.map fun o => Out.groupHook o.hook).filter isLeafOut) = [] := by
+                apply List.filter_eq_nil_iff.mpr
+                intro o ho; simp at ho; obtain ⟨_, _, rfl⟩ := ho; simp [isLeafOut]
+              rw [hnil] at a
+              simp only [expectedOf, expectedOuts, List.flatMap_append, List.flatMap_cons, List.flatMap_nil, outsOfEvent,
+                List.append_nil] at a ⊢
+              simp [List.filter_cons, isLeafOut, hsc, List.count_cons] at a ⊢
+              omega
+          | selfExecute id => simp [selfCall] at hsc
+          | selfClose id => simp [selfCall] at hsc
+          | selfVote id v => simp [selfCall] at hsc
+          | selfPropose l => simp [selfCall] at hsc
+          | noContract tag => simp at h1
+      | bank to amt denom =>
+        simp at h1
+        obtain ⟨b, _, rfl, rfl⟩ := h1
+        exact leafStep { w with bank := b } rfl rfl rfl rfl rfl rfl
+      | cw20Transfer token to amt =>
+        simp only [Res.bind_ok, Res.pure_ok, Prod.mk.injEq] at h1
+        obtain ⟨wl, hcall, rfl, rfl⟩ := h1
+        obtain ⟨tt, rfl⟩ := tokenCall_frame hcall
+        exact leafStep { w with token := tt } rfl rfl rfl rfl rfl rfl
+      | cw20TransferFrom token owner to amt =>
+        simp only [Res.bind_ok, Res.pure_ok, Prod.mk.injEq] at h1
+        obtain ⟨wl, hcall, rfl, rfl⟩ := h1
+        obtain ⟨tt, rfl⟩ := tokenCall_frame hcall
+        exact leafStep { w with token := tt } rfl rfl rfl rfl rfl rfl
+      | groupHook hook =>
+        simp only at h1
+        split at h1
+        · simp only [Res.bind_ok, Prod.exists] at h1
+          obtain ⟨s', out, he, hd⟩ := h1
+          exact nested w.groupAddr .memberChangedHook s' out rfl he hd
+        · simp at h1
+
+/-- The invariant of the converse on the instrumented history: `LogOk`, and the trace so far is — as a multiset — what the
+handler calls recorded in the log returned. -/
+def ConvInv (wt : World × List Out) : Prop :=
+  LogOk wt.1 ∧ ∀ x, wt.2.count x = (expectedOf wt.1).count x
+
+theorem conv_stepT (ext : Ext) (fuel : Nat) (wt : World × List Out) (op : Op) (hq : ConvInv wt) :
+    ConvInv (stepT ext fuel wt op) := by
+  obtain ⟨w, tr⟩ := wt
+  obtain ⟨hlog, hcnt⟩ := hq
+  unfold stepT
+  cases htx : txT ext fuel w op.blk op.act with
+  | error e => exact ⟨hlog, hcnt⟩
+  | ok r =>
+    obtain ⟨w', t⟩ := r
+    simp only at hlog hcnt ⊢
+    cases hact : op.act with
+    | flex snd funds m =>
+      rw [hact] at htx
+      simp only [txT, Res.bind_ok, Prod.exists] at htx
+      obtain ⟨b, _, s', out, he, hd⟩ := htx
+      have hlb : LogOk { w with bank := b } := hlog
+      obtain ⟨hq2, hexp⟩ := expected_call (w := { w with bank := b }) hlb he
+      obtain ⟨hq', _, hc'⟩ := conv_dispatchT ext op.blk fuel _ out w' t hq2 hd
+      refine ⟨hq', fun x => ?_⟩
+      have a := hc' x
+      simp only [expectedOf] at a hcnt ⊢
+      have hb := hcnt x
+      simp only at hexp
+      rw [hexp, List.count_append] at a
+      rw [List.count_append]
+      omega
+    | group snd m =>
+      rw [hact] at htx
+      simp only [txT, Res.bind_ok, Prod.exists] at htx
+      obtain ⟨g', outs, _, hd⟩ := htx
+      have hq2 : LogOk { w with group := g', log := w.log ++ [.groupWrite op.blk.height] } := by
+        refine ⟨hlog.1, fun e hm id hid => ?_⟩
+        rcases List.mem_append.mp hm with hm | hm
+        · exact hlog.2 e hm id hid
+        · simp at hm; subst hm; simp [evId] at hid
+      obtain ⟨hq', _, hc'⟩ := conv_dispatchT ext op.blk fuel _ _ w' t hq2 hd
+      refine ⟨hq', fun x => ?_⟩
+      have a := hc' x
+      have hnil : ((outs.map fun o => Out.groupHook o.hook).filter isLeafOut) = [] := by
+        apply List.filter_eq_nil_iff.mpr
+        intro o ho; simp at ho; obtain ⟨_, _, rfl⟩ := ho; simp [isLeafOut]
+      rw [hnil] at a
+      have hb := hcnt x
+      simp only [expectedOf, expectedOuts, List.flatMap_append, List.flatMap_cons, List.flatMap_nil, outsOfEvent,
+        List.append_nil] at a hb ⊢
+      rw [List.count_append]
+      simp at a
+      omega
+    | token snd m =>
+      rw [hact] at htx
+      simp [txT] at htx
+      obtain ⟨tk, out, _, _, rfl, rfl⟩ := htx
+      exact ⟨hlog, fun x => by simpa [expectedOf] using hcnt x⟩
+
+theorem conv_runT (ext : Ext) (fuel : Nat) : ∀ (ops : List Op) (wt : World × List Out), ConvInv wt →
+    ConvInv (runT ext fuel wt ops)
+  | [], _, h => h
+  | op :: rest, wt, h => conv_runT ext fuel rest _ (conv_stepT ext fuel wt op h)
+
+/-- **C05 converse for cw3-flex, over every history: `dispatched_only_by_execute_run`.**  Start from any accepted
+instantiation, on any group, token, bank; run ANY history (transactions by anybody on the multisig, the group, the token;
+nested self-calls, group updates and hooks; failing transactions rolled back).  `runT` computes the same world as the
+model's `run` (second conjunct) together with the list of leaf messages the runtime ever performed on behalf of the
+multisig in committed transactions — bank sends, cw20 `Transfer` / `TransferFrom`, group updates.  That list is, as a
+multiset (`List.Perm`), exactly the union over the ghost log of what the recorded handler calls returned: for each
+`executed id` the deposit refund (if the proposal carries a deposit) and the proposal's own non-self-call messages, for
+each `closed id` the refund when `refund_failed_proposals` is set, for each `proposed id snd` the `TransferFrom` that takes
+a cw20 deposit; nothing for votes, hooks and group writes.  With `executions_le_one` (each proposal has at most one
+`executed` event) and `C15.refund_at_most_once`: nothing is ever dispatched for the multisig that is not a stored message
+of an executed proposal or a deposit movement, and each executed proposal contributes exactly once. -/
+theorem dispatched_only_by_execute_run {ext : Ext} {fuel : Nat} {m : InstMsg} {s : State} {g : Cw4Group.State}
+    {t : Cw20.State} {bank : AMap (Addr × String) Nat} {self ga ta : Addr} {h0 : Nat} (ops : List Op)
+    (hi : instantiate m (some g) = .ok s) :
+    let wt := runT ext fuel (World.init s g t bank self ga ta h0, []) ops
+    wt.2.Perm (expectedOuts wt.1.flex.core wt.1.self wt.1.log) ∧
+    wt.1 = run ext fuel (World.init s g t bank self ga ta h0) ops := by
+  intro wt
+  refine ⟨?_, runT_world ext fuel ops _⟩
+  have hinit : ConvInv (World.init s g t bank self ga ta h0, []) := by
+    refine ⟨⟨instantiate_inv hi, fun e hm id hid => ?_⟩, fun x => ?_⟩
+    · simp [World.init] at hm; subst hm; simp [evId] at hid
+    · simp [expectedOf, expectedOuts, World.init, outsOfEvent]
+  have := (conv_runT ext fuel ops _ hinit).2
+  rw [List.perm_iff_count]
+  exact this
+
+/-- **Traces back (flex).**  Every leaf message in the trace of a history is one of: a stored non-self-call message of a
+proposal with an `executed` event in the log, the refund of the deposit recorded in an executed or closed proposal
+(addressed to its proposer), or the `TransferFrom` taking the deposit recorded in a proposed one. -/
+theorem dispatched_traces_back {ext : Ext} {fuel : Nat} {m : InstMsg} {s : State} {g : Cw4Group.State}
+    {t : Cw20.State} {bank : AMap (Addr × String) Nat} {self ga ta : Addr} {h0 : Nat} (ops : List Op)
+    (hi : instantiate m (some g) = .ok s) {x : Out}
+    (hx : x ∈ (runT ext fuel (World.init s g t bank self ga ta h0, []) ops).2) :
+    let w := run ext fuel (World.init s g t bank self ga ta h0) ops
+    ∃ id p, w.flex.core.proposals.get? id = some p ∧
+      ((Event.executed id ∈ w.log ∧ ∃ mm ∈ p.msgs, selfCall mm = none ∧ x = .msg mm) ∨
+       ((Event.executed id ∈ w.log ∨ Event.closed id ∈ w.log) ∧ ∃ d, p.deposit = some d ∧ x = refundMsg d p.proposer) ∨
+       (∃ snd d, Event.proposed id snd ∈ w.log ∧ p.deposit = some d ∧ x ∈ takeDeposit d snd w.self)) := by
+  intro w
+  obtain ⟨hperm, hw⟩ := dispatched_only_by_execute_run (ext := ext) (fuel := fuel) (t := t) (bank := bank) (self := self)
+    (ga := ga) (ta := ta) (h0 := h0) ops hi
+  have hmem := hperm.mem_iff.mp hx
+  simp only [hw] at hmem
+  change x ∈ expectedOuts w.flex.core w.self w.log at hmem
+  obtain ⟨e, he, hxe⟩ := List.mem_flatMap.mp hmem
+  cases e with
+  | executed id =>
+    simp only [outsOfEvent, fixedOf] at hxe
+    cases hp : w.flex.core.proposals.get? id with
+    | none => simp [hp] at hxe
+    | some p =>
+      simp only [hp, Option.map_some, Proposal.fixedPart] at hxe
+      refine ⟨id, p, hp, ?_⟩
+      rcases List.mem_append.mp hxe with h | h
+      · right; left
+        cases hd : p.deposit with
+        | none => simp [hd] at h
+        | some d => simp [hd] at h; exact ⟨Or.inl he, d, rfl, h⟩
+      · left
+        obtain ⟨h1, h2⟩ := List.mem_filter.mp h
+        obtain ⟨mm, hmm, rfl⟩ := List.mem_map.mp h1
+        exact ⟨he, mm, hmm, by simpa [isLeafOut] using h2, rfl⟩
+  | closed id =>
+    simp only [outsOfEvent, fixedOf] at hxe
+    cases hp : w.flex.core.proposals.get? id with
+    | none => simp [hp] at hxe
+    | some p =>
+      simp only [hp, Option.map_some, Proposal.fixedPart] at hxe
+      refine ⟨id, p, hp, Or.inr (Or.inl ?_)⟩
+      cases hd : p.deposit with
+      | none => simp [hd] at hxe
+      | some d =>
+        simp only [hd] at hxe
+        split at hxe
+        · simp at hxe; exact ⟨Or.inr he, d, rfl, hxe⟩
+        · simp at hxe
+  | proposed id snd =>
+    simp only [outsOfEvent, fixedOf] at hxe
+    cases hp : w.flex.core.proposals.get? id with
+    | none => simp [hp] at hxe
+    | some p =>
+      simp only [hp, Option.map_some, Proposal.fixedPart] at hxe
+      refine ⟨id, p, hp, Or.inr (Or.inr ?_)⟩
+      cases hd : p.deposit with
+      | none => simp [hd] at hxe
+      | some d => simp only [hd] at hxe; exact ⟨snd, d, he, rfl, hxe⟩
+  | voted id a => simp [outsOfEvent] at hxe
+  | hook => simp [outsOfEvent] at hxe
+  | groupWrite h => simp [outsOfEvent] at hxe
+
 /-! ## non-vacuity -/
 
 open CwPlus.Props.C15 in
@@ -631,6 +1339,24 @@ dispatch (the group's hook message to the multisig) succeeds and the ghost count
 example : isExec (run Cex.noExt 10 exW0 exMore).flex.core 1 = true ∧
     ((dispatch Cex.noExt 5 (run Cex.noExt 10 exW0 exMore) ⟨14, 0⟩ [.groupHook "ms"]).toOption.map fun w' => executions w' 1)
       = some 1 := by
+  decide
+
+open CwPlus.Props.C15 in
+/-- non-vacuity of `dispatched_only_by_execute_run` (native deposit, two concurrent proposals, one executed): the trace
+of the history is the refund of proposal 1 followed by its bank message; the expected list is the same. -/
+example :
+    let wt := runT Cex.noExt 10 (CexPool.world0, []) CexPool.opsSpend
+    wt.2 = [Out.bank "a" 5 "ucosm", Out.msg (.bank "x" 5 "ucosm")] ∧
+    expectedOuts wt.1.flex.core wt.1.self wt.1.log = [Out.bank "a" 5 "ucosm", Out.msg (.bank "x" 5 "ucosm")] ∧
+    wt.1.log = CexPool.wSpend.log := by
+  decide
+
+open CwPlus.Props.C15 in
+/-- non-vacuity with a cw20 deposit: the trace is the `TransferFrom` that took the deposit at Propose and the `Transfer`
+that returned it at Execute. -/
+example :
+    (runT Cex.noExt 10 (Cex20.world0, []) Cex20.ops).2
+      = [Out.cw20TransferFrom "tok" "a" "ms" 5, Out.cw20Transfer "tok" "a" 5] := by
   decide
 
 end CwPlus.Props.C05Flex
